@@ -490,6 +490,6 @@ Proof.
     pose proof (forallb_map_trim_inner l H3 Ht3) as Hin.
     pose proof (outer_ok_of_trim l Ht2) as Hout.
     exists (joinP sep0 (map piece (map to_elem l))). split.
-    + rewrite <- E at 1. apply join_elems.
+    + rewrite <- E at 1. apply join_elems; [exact F|apply last_ok_elems; assumption].
     + rewrite (elems_parse_roundtrip _ Hne F Hin Hout). rewrite E. reflexivity.
 Qed.
